@@ -124,7 +124,8 @@ def run(ctx, report):
             try:
                 gap = d in (1, 2) and p < 4
                 mixed = d == 3 and p < 4 and "p" in desc["parts"]
-                if mixed:
+                ponly = d == 3 and p in (4, 5) and "p" in desc["parts"]
+                if mixed or ponly:
                     kind = "flat2"
                 if gap:
                     # directed: rows selected in the first and in later pages of a row group, none in the page(s) between
@@ -147,6 +148,10 @@ def run(ctx, report):
                         if mixed:
                             filt = [[("p", "==", 1), ("i", ">", 4)], [("i", ">", 4), ("p", "==", 1)],
                                     [("p", "in", [0, 2]), ("flag", "==", 1), ("i", "<", 9)], [("i", "<", 8), ("p", "!=", 0), ("flag", "==", 0)]][p]
+                        if ponly:
+                            # an AND group naming partition columns only: nothing is left to test row by row, so every row of the
+                            # retained row groups qualifies
+                            filt = [[("p", "==", 1)], [("p", "in", [0, 2]), ("p", "!=", 2)]][p - 4]
                         dnf = [filt]
                     else:
                         dnf = [[rand_cond(rng, full, cols) for _ in range(rng.choice([1, 2]))] for _ in range(int(kind[-1]))]
